@@ -5,6 +5,7 @@ from fractions import Fraction
 
 from core import Corr, Violation, run_driver
 from extract import pyexpr
+from extract import shape
 
 ID = "C08"
 SRC = "mlinsights/mlmodel/piecewise_estimator.py"
@@ -118,6 +119,13 @@ def _sliced_by(stmts, mask="ind"):
 
 def _pairs(xs):
     return "[" + ", ".join("(%s, %s)" % (_q(a), _q(b)) for a, b in xs) + "]"
+
+
+def _fn(root, name):
+    try:
+        return pyexpr.find_function(root, name)
+    except pyexpr.Unknown:
+        return None
 
 
 def extract(ctx):
@@ -333,8 +341,14 @@ def fitTaskSharedRng : List String := %(shared)s
 def predictBufferDtype : String := %(dtype)s
 def predictPost : PostOp := %(post)s
 
+%(shapes)s
 end MlVerif.Gen.C08
-""" % dict(fit_sel=fit_sel, fit_sliced=_pairs(fit_sliced), after=_pairs(after), fit_call=_lstr(fit_call),
+""" % dict(shapes=shape.lean_defs([("shapeFitTask", _fn(tree, "_fit_piecewise_estimator")),
+                                     ("shapePredictTask", _fn(tree, "_predict_piecewise_estimator")),
+                                     ("shapeTransformBins", _fn(cls, "transform_bins")),
+                                     ("shapeMappingTrain", _fn(cls, "_mapping_train")),
+                                     ("shapeApplyPredictMethod", _fn(cls, "_apply_predict_method"))]),
+           fit_sel=fit_sel, fit_sliced=_pairs(fit_sliced), after=_pairs(after), fit_call=_lstr(fit_call),
            psel="[" + ", ".join("(%s, %s, %s)" % (_q(n), s, _q(m)) for n, s, m in psel) + "]",
            inits="[" + ", ".join(inits) + "]", defaults="[" + ", ".join(defaults) + "]", unseen=unseen,
            scatter=_lstr(scatter), accum=accum, final=final, guard=guard, fb=_lstr(fb),
@@ -512,7 +526,10 @@ def make_case(rng, kind, label_type="int"):
         X[:, j] = [rng.randint(0, 9) for _ in range(n)]
     w = None
     if rng.random() < 0.5:
-        w = numpy.array([rng.randint(1, 5) for _ in range(n)], dtype=float)
+        lo = rng.choice([1, 1, 0])      # "all sample weights": count weights may be 0 for some rows
+        w = numpy.array([rng.randint(lo, 5) for _ in range(n)], dtype=float)
+        if not w.any():
+            w[0] = 1.0
     if kind == "reg":
         y = numpy.array([rng.randint(-20, 20) for _ in range(n)], dtype=float)
         codes = None
@@ -886,6 +903,29 @@ def check_recording(ctx, gen_seed, kind, label_type="int", njobs_list=(None, 1, 
                                     {"row": r_, "got": numpy.asarray(out[r_]).tolist()},
                                     {"want": numpy.asarray(ref).tolist()}))
                         break
+            # a tall batch (row counts around the block sizes a vectorised routing would use): every row still goes to
+            # its own bucket, and the output is the concatenation of the outputs of its chunks
+            if nj == njobs_list[0]:
+                mt = TALL_ROWS[gen_seed % len(TALL_ROWS)]
+                T = numpy.zeros((mt, X.shape[1]))
+                T[:, 0] = numpy.arange(mt)
+                trs = numpy.random.RandomState(gen_seed % (1 << 30))
+                T[:, 1:] = trs.randint(0, 10, size=(mt, X.shape[1] - 1))
+                tkeys = independent_keys(model, T)
+                at = numpy.asarray(model.transform_bins(T))
+                want_t = numpy.array([k2id.get(kk, -1) for kk in tkeys], dtype=float)
+                if at.shape[0] != mt or not numpy.array_equal(at.astype(float), want_t):
+                    r_ = int(numpy.argmax(at.astype(float) != want_t)) if at.shape[0] == mt else -1
+                    bad.append((K_PART, "bucket ids of a batch of %d rows are not the binner's buckets (first at row %d)"
+                                % (mt, r_), {"got": at[max(r_, 0):max(r_, 0) + 5].tolist()},
+                                {"want": want_t[max(r_, 0):max(r_, 0) + 5].tolist()}))
+                for meth in meths:
+                    out_t = numpy.asarray(getattr(model, meth)(T))
+                    parts = numpy.concatenate([numpy.asarray(getattr(model, meth)(T[i:i + 256]))
+                                               for i in range(0, mt, 256)], axis=0)
+                    if out_t.shape != parts.shape or not numpy.array_equal(out_t, parts):
+                        bad.append((K_DISP, "%s: output on a batch of %d rows is not the concatenation of the outputs of "
+                                    "its chunks" % (meth, mt), {"shape": list(out_t.shape)}, {"shape": list(parts.shape)}))
             info["n_estimators"] = nest
             info["unseen_rows"] = int((assoc_b < 0).sum())
             try:
@@ -907,6 +947,9 @@ def check_recording(ctx, gen_seed, kind, label_type="int", njobs_list=(None, 1, 
             bad.append((key, "fitted models / predictions differ between n_jobs=%s and n_jobs=%s" % (njobs_list[0], nj),
                         str(b)[:300], str(a)[:300]))
     return bad, info
+
+
+TALL_ROWS = (2049, 4097, 1025, 2047, 4095, 8193)
 
 
 def check_real(ctx, gen_seed, label_type):
